@@ -54,6 +54,10 @@ def gen_epochs(rng: random.Random, tier: str) -> dict:
     sync_compact = 0.34 <= mode < 0.56
     policy = rng.choice(["batch", "batch", "periodic"]) if pile_up else rng.choice(["every", "batch", "batch", "periodic"])
     cfg = gen_lsm_cfg(rng, kind, wal=True, wal_policy=policy)
+    if rng.random() < 0.15:
+        # round 8: one level only, so every compaction rewrites L0 in place while flushes keep installing newer
+        # tables into the same level (C15-r8-2: merged table appended behind them, stale value durable after a crash)
+        cfg["max_levels"] = 1
     cfg["memtable_size"] = rng.choice([1, 1, 2]) if pile_up else rng.choice([1, 2, 3, 3, 4, 10])
     if sync_compact:
         cfg["memtable_size"] = rng.choice([1, 2, 3])
